@@ -14,7 +14,7 @@ META = {
 
 
 def run(chk, facts, tier):
-    chk.rule('rx-counter-site', 'increment_receive_packet_counter() is called only in ll_data_pdu_buffer::received(), control dependent on SN == expected and (header & 0xff00) != 0', floor=1)
+    chk.rule('rx-counter-site', 'increment_receive_packet_counter() is called only in ll_data_pdu_buffer::received(), control dependent on exactly SN == expected and (header & 0xff00) != 0 (no further condition, e.g. on the LLID)', floor=1)
     chk.rule('tx-counter-site', 'increment_transmit_packet_counter() is called only in ll_data_pdu_buffer::acknowledge(bool), in the same branch as pop_end (sn != nesn, no empty PDU outstanding)', floor=1)
     chk.rule('nesn-toggle-counts', 'every NESN toggle is in received() and the receive counter increment is reachable only through that toggle\'s branch', floor=1)
     variants(facts, BUF + 'received', chk)
@@ -43,8 +43,8 @@ def run(chk, facts, tier):
                 ats = guard_atoms(fn, c)
                 new = sn_eq_expected(ats, '==')
                 nonempty = any(op == '!=' and cval(r) == 0 and not isinstance(l, int) and l.k == 'BinaryOperator' and l.o == '&' and cval(l.c[1]) == 0xff00 for l, op, r in ats)
-                ok = new and nonempty and len(fn.body.calls('increment_receive_packet_counter')) == 1
-                chk.instance('rx-counter-site', fn, 'increment_receive_packet_counter()', ok, '' if ok else 'guards: new=%s length!=0=%s' % (new, nonempty), node=c, key='rx in received')
+                ok = new and nonempty and len(ats) == 2 and len(fn.body.calls('increment_receive_packet_counter')) == 1
+                chk.instance('rx-counter-site', fn, 'increment_receive_packet_counter() under exactly (SN == expected) && (length != 0)', ok, '' if ok else 'guards: new=%s length!=0=%s, %d further condition(s): a new non-empty PDU that the central encrypted with the next counter value is not counted (or a retransmission/empty PDU is), the nonces of both sides diverge' % (new, nonempty, len(ats) - 2), node=c, key='rx in received')
                 togg = [st for tgt, op, val, st in stores(fn.body) if target_name(tgt) == 'next_expected_sequence_number_']
                 ok2 = len(togg) == 1 and precedes(fn, togg[0], c)
                 chk.instance('nesn-toggle-counts', fn, 'NESN toggle precedes counter increment', ok2, '' if ok2 else 'counter may advance without the PDU being acknowledged', node=c, key='toggle->count')
